@@ -717,7 +717,8 @@ impl<'a> UserModel<'a> {
         if let Ok(worksheet) = self.model.workbook.worksheet_mut(sheet) {
             if let Some(view) = worksheet.views.get_mut(&self.model.view_id) {
                 view.top_row = first_row;
-                view.row = view.top_row + row_delta;
+                // the selected cell can be above the visible area (row_delta < 0): stay inside the grid
+                view.row = (view.top_row + row_delta).max(1);
                 view.range = [view.row, view.column, view.row, view.column];
             }
         }
